@@ -145,6 +145,7 @@ CHECKS = {
         "tests": [
             {"name": "TestC10Inheritance", "checks": [3000, 100000], "shards": [2, 16], "floor": 0.75},
             {"name": "TestC10Grid", "enum": True},
+            {"name": "TestC10Flatten", "checks": [3000, 100000], "shards": [2, 16], "floor": 0.6},
             K,
         ],
         "assumptions": ["child templates contain only blocks, text and comments at top level; overriding blocks are defined at the top level of the child"],
